@@ -38,7 +38,8 @@ pub struct Snapshot {
     /// error counters (so they must be invariant wherever the other answers are).
     pub metrics: Vec<(String, String)>,
     /// Raw sizes of the stable UTXO set as reported by the metrics endpoint (they move while a
-    /// block is being ingested in slices, so `diff` does not compare them; C09 does across an upgrade).
+    /// block is being ingested in slices) and its `is_synced` gauge (announced headers can arrive at
+    /// different moments in twin runs): `diff` does not compare them; C09 does across an upgrade.
     pub metrics_sizes: Vec<(String, String)>,
     pub traps: Vec<String>,
 }
@@ -56,7 +57,7 @@ pub const TREE_GAUGES: [&str; 11] = [
     "num_insert_block_errors",
     "send_transaction_count",
 ];
-pub const SIZE_GAUGES: [&str; 2] = ["utxos_length", "address_utxos_length"];
+pub const SIZE_GAUGES: [&str; 3] = ["utxos_length", "address_utxos_length", "is_synced"];
 
 pub fn take(w: &World) -> Snapshot {
     let net = w.cfg.net;
